@@ -86,7 +86,7 @@ Definition spawn_progs : list (list act) := [[ASpawn 2; ASpawn 1; APrim]; [AComp
 Definition spawn_sched : list tid := [0;0;0;0;0; 0;0] ++ repeat 2 60 ++ [1].
 
 Lemma spawn_window_stale :
-  let w := run cfg_fixed spawn_sched (init spawn_progs) in
+  let w := run cfg_pre_spawn_fix spawn_sched (init spawn_progs) in
   (forall s x, pc (th w s) <> Stw x) /\ pc (th w 2) = Done /\ env_gen w = 1 /\
   pc (th w 1) = Exec /\ seen (th w 1) = 0.
 Proof.
